@@ -180,6 +180,12 @@ func (code128Encoder) encodeWithHints(contentsStr string, hints map[gozxing.Enco
 						return nil, gozxing.NewWriterException(
 							"IllegalArgumentException: Bad number of characters for digit only encoding.")
 					}
+					if contents[position] < '0' || contents[position] > '9' ||
+						contents[position+1] < '0' || contents[position+1] > '9' {
+						return nil, gozxing.NewWriterException(
+							"IllegalArgumentException: Code set C needs pairs of digits, found %q",
+							string(contents[position:position+2]))
+					}
 					patternIndex = (int(contents[position])-'0')*10 + (int(contents[position+1]) - '0')
 					position++ // Also incremented below
 					break
